@@ -66,32 +66,36 @@ def replay_chunk(items, root, seed):
                 worlds[key] = PlotWorld(root, st['multi'], st['aps'], seed + len(worlds))
             w = worlds[key]
             rng = random.Random(seed * 53 + bi)
-            s = Source()
-            s.name = 'plt_%d' % bi
-            s.x = 0.0
-            s.y = 0.0
-            s.valid = np.array([1, 1, 1])
-            m0 = rng.randrange(NM)
-            s.flux = np.array([val(m0, 1, i) * rng.uniform(0.6, 1.5) * 0.2 for i in w.filt_w])
             from astropy import units as u_
             kk = np.asarray(w.law.get_av(np.array([WAV[i] for i in w.filt_w]) * u_.micron))
-            s.flux = s.flux * 10.0 ** (rng.choice([0.0, 1.0, 2.5]) * kk)          # reddened: the fitted A_V is non-zero
-            s.error = 0.1 * s.flux
-            desc = {'behaviour': b, 'wavelengths_um': [WAV[i] for i in w.filt_w]}
+            m0 = rng.randrange(NM)
+            nsrc = 1 + (bi % 3)              # one plot() call covers 1-3 sources (often sharing their best model)
+            srcs = []
+            for si in range(nsrc):
+                s = Source()
+                s.name = 'plt_%d_%d' % (bi, si)
+                s.x = 0.0
+                s.y = 0.0
+                s.valid = np.array([1, 1, 1])
+                s.flux = np.array([val(m0, 1, i) * rng.uniform(0.8, 1.25) * 0.2 for i in w.filt_w])
+                s.flux = s.flux * 10.0 ** (rng.choice([0.0, 1.0, 2.5]) * kk)          # reddened: the fitted A_V is non-zero
+                s.error = 0.1 * s.flux
+                srcs.append(s)
+            desc = {'behaviour': b, 'wavelengths_um': [WAV[i] for i in w.filt_w], 'sources_in_one_call': nsrc}
             try:
-                info = w.fitter.fit(s)
-                pred = np.array(info.model_fluxes)[:st['nsel']]
-                sc = np.array(info.sc)[:st['nsel']]
-                inp = info
+                infos = [w.fitter.fit(s) for s in srcs]
+                preds = [np.array(i_.model_fluxes)[:st['nsel']] for i_ in infos]
+                inp = infos[0] if nsrc == 1 else infos
                 if st['form'] == 'file':
                     p = os.path.join(w.dir, 'fit_%d.fitinfo' % bi)
                     fo = FitInfoFile(p, 'w')
-                    fo.write(info)
+                    for i_ in infos:
+                        fo.write(i_)
                     fo.close()
                     inp = p
                 with fw.quiet():
                     figs = plot(inp, output_dir=None, select_format=('N', st['nsel']), sed_type=st['mode'], memmap=bool(bi % 2))
-                segs = figs[s.name]['lines'].get_segments()
+                allsegs = [figs[s.name]['lines'].get_segments() for s in srcs]
             except Exception as e:
                 sig = 'C17:raised:%s:%s' % (st['mode'], type(e).__name__)
                 if 'RGBA' in repr(e):
@@ -99,36 +103,39 @@ def replay_chunk(items, root, seed):
                 col.violation(sig, 'plot(sed_type=%r, %d fits, filter apertures %r arcsec, %s-aperture package, %s input) raised %r'
                               % (st['mode'], st['nsel'], st['aps'], 'multi' if st['multi'] else 'single', st['form'], e), desc)
                 continue
-            col.replayed += 1
-            curves = b['curves']
-            if len(segs) != len(curves):
-                col.violation('C17:curve_count', 'sed_type=%r, %d selected fits, filter apertures %r: %d curves drawn, spec %d'
-                              % (st['mode'], st['nsel'], st['aps'], len(segs), len(curves)), desc)
-                continue
-            bad = None
-            for ci, cv in enumerate(curves):
-                seg = np.asarray(segs[ci])
-                r = cv['rank'] - 1
-                for f, fw_i in enumerate(w.filt_w):
-                    shown_for_f = (cv['ap'] == 0) or (cv['ap'] == st['aps'][f]) or (not st['multi'])
-                    if not shown_for_f:
-                        continue
-                    k = int(np.argmin(np.abs(seg[:, 0] - WAV[fw_i])))
-                    if abs(seg[k, 0] - WAV[fw_i]) > 1e-9:
-                        bad = 'curve %d has no point at %g um' % (ci, WAV[fw_i])
-                        break
-                    nu = CLIGHT / (WAV[fw_i] * 1e-6)
-                    want = pred[r, f] - 26.0 + math.log10(nu)
-                    got = math.log10(seg[k, 1]) if seg[k, 1] > 0 else float('nan')
-                    if not abs(got - want) <= 2e-3:
-                        bad = ('curve %d (fit ranked %d, aperture %s) at %g um: log10 %.5f, the fit predicts %.5f (model %s, A_V %.3f, scale %.3f)'
-                               % (ci, cv['rank'], cv['ap'] or 'own', WAV[fw_i], got, want, str(info.model_name[r]).strip(), info.av[r], info.sc[r]))
+            for si in range(nsrc):
+                segs, pred, info, s = allsegs[si], preds[si], infos[si], srcs[si]
+                col.replayed += 1
+                curves = b['curves']
+                if len(segs) != len(curves):
+                    col.violation('C17:curve_count', 'sed_type=%r, %d selected fits, filter apertures %r: %d curves drawn, spec %d'
+                                  % (st['mode'], st['nsel'], st['aps'], len(segs), len(curves)), desc)
+                    break
+                bad = None
+                for ci, cv in enumerate(curves):
+                    seg = np.asarray(segs[ci])
+                    r = cv['rank'] - 1
+                    for f, fw_i in enumerate(w.filt_w):
+                        shown_for_f = (cv['ap'] == 0) or (cv['ap'] == st['aps'][f]) or (not st['multi'])
+                        if not shown_for_f:
+                            continue
+                        k = int(np.argmin(np.abs(seg[:, 0] - WAV[fw_i])))
+                        if abs(seg[k, 0] - WAV[fw_i]) > 1e-9:
+                            bad = 'curve %d has no point at %g um' % (ci, WAV[fw_i])
+                            break
+                        nu = CLIGHT / (WAV[fw_i] * 1e-6)
+                        want = pred[r, f] - 26.0 + math.log10(nu)
+                        got = math.log10(seg[k, 1]) if seg[k, 1] > 0 else float('nan')
+                        if not abs(got - want) <= 2e-3:
+                            bad = ('curve %d (fit ranked %d, aperture %s) at %g um: log10 %.5f, the fit predicts %.5f (model %s, A_V %.3f, scale %.3f)'
+                                   % (ci, cv['rank'], cv['ap'] or 'own', WAV[fw_i], got, want, str(info.model_name[r]).strip(), info.av[r], info.sc[r]))
+                            break
+                    if bad:
                         break
                 if bad:
+                    col.violation('C17:curve_value:%s' % st['mode'], 'sed_type=%r, %d fits, filter apertures %r arcsec, %s-aperture package, %s input, source %d of %d in one call: %s'
+                                  % (st['mode'], st['nsel'], st['aps'], 'multi' if st['multi'] else 'single', st['form'], si + 1, nsrc, bad), desc)
                     break
-            if bad:
-                col.violation('C17:curve_value:%s' % st['mode'], 'sed_type=%r, %d fits, filter apertures %r arcsec, %s-aperture package, %s input: %s'
-                              % (st['mode'], st['nsel'], st['aps'], 'multi' if st['multi'] else 'single', st['form'], bad), desc)
     finally:
         for w in worlds.values():
             w.close()
